@@ -486,6 +486,17 @@ func (s *genState) distinctWeights() M {
 	for i, id := range s.critIds {
 		w[id] = float64(p[i]+1) + float64(g.Int(0, 3))/8
 	}
+	if g.Chance(1, 6) {
+		// the lightest criterion weighs exactly 0 (still distinct from the others, still the last one looked at)
+		lightest := ""
+		for _, id := range sortedKeys(w) {
+			if lightest == "" || num(w[id]) < num(w[lightest]) {
+				lightest = id
+			}
+		}
+		w[lightest] = 0.0
+		s.label("zeroWeight")
+	}
 	s.squeezeWeights(w)
 	return w
 }
